@@ -81,18 +81,13 @@ Definition split_shorts (opts : list opt) (token : str) (args : vec) (ignore_unk
    (for (j = 0; j < clo_num_params; ++j, ++i)) *)
 Inductive taken :=
 | T_ok (ps : list (list ascii)) (i : nat)   (* all parameters present; next token *)
-| T_missing (i : nat)                       (* error; the tail starts at i *)
-| T_double_free (i : nat).                  (* error path that frees param->clp_argv twice:
-                                               parsec_argv_free(param->clp_argv) and then
-                                               PARSEC_OBJ_RELEASE(param), whose destructor frees
-                                               the same non-NULL clp_argv again (cmd_line.c:414-417) *)
+| T_missing (i : nat).                      (* error; param is released; the tail starts at i *)
 Fixpoint take_params (np : nat) (av : vec) (i : nat) (acc : vec) : taken :=
   match np with
   | O => T_ok acc i
   | S np' =>
-      if length av <=? i then T_missing i        (* only PARSEC_OBJ_RELEASE(param) *)
-      else if str_eqb (get av i) special_empty_token then
-        match acc with [] => T_missing i | _ => T_double_free i end
+      if length av <=? i then T_missing i
+      else if str_eqb (get av i) special_empty_token then T_missing i
       else take_params np' av (S i) (acc ++ [get av i])
   end.
 
@@ -101,8 +96,7 @@ Record parsed := mk_parsed {
   p_params : list (nat * list (list ascii)); (* lcl_params: (option, its parameters), in order *)
   p_tail : list (list ascii);                (* lcl_tail_argv *)
   p_argv : list (list ascii);                (* lcl_argv after the parse (short options expanded) *)
-  p_fuel : bool;                             (* the model ran out of fuel (never on the tested inputs) *)
-  p_ub : bool                                (* the C code has undefined behaviour here (double free) *)
+  p_fuel : bool                              (* the model ran out of fuel (never on the tested inputs) *)
 }.
 
 Definition starts_dashdash (t : str) : bool :=
@@ -112,22 +106,21 @@ Definition starts_dashdash (t : str) : bool :=
 Fixpoint parse_loop (fuel : nat) (opts : list opt) (ignore_unknown : bool)
          (av : vec) (i : nat) (params : list (nat * vec)) : parsed :=
   match fuel with
-  | O => mk_parsed RC_ERROR params [] av true false
+  | O => mk_parsed RC_ERROR params [] av true
   | S f =>
-      if length av <=? i then mk_parsed RC_SUCCESS params [] av false false else
+      if length av <=? i then mk_parsed RC_SUCCESS params [] av false else
       let tok := get av i in
       let unknown (is_unknown_option : bool) (av' : vec) :=
           (* copy everything from the current token into the tail *)
           mk_parsed (if negb ignore_unknown || is_unknown_option then RC_ERROR else RC_SUCCESS)
-                    params (skipn i av') av' false false in
+                    params (skipn i av') av' false in
       let known (av' : vec) (k : nat) :=
           match take_params (np_of opts k) av' (S i) [] with
           | T_ok ps i' => parse_loop f opts ignore_unknown av' i' (params ++ [(k, ps)])
-          | T_missing i' => mk_parsed RC_ERROR params (skipn i' av') av' false false
-          | T_double_free i' => mk_parsed RC_ERROR params (skipn i' av') av' false true
+          | T_missing i' => mk_parsed RC_ERROR params (skipn i' av') av' false
           end in
       if str_eqb tok [dash; dash] then
-        mk_parsed RC_SUCCESS params (skipn (S i) av) av false false
+        mk_parsed RC_SUCCESS params (skipn (S i) av) av false
       else match tok with
       | [] => unknown false av
       | c0 :: rest =>
@@ -166,8 +159,8 @@ Definition parse_fuel (opts : list opt) (av : vec) : nat :=
 (* parsec_cmd_line_parse on a fresh handle; argc = count(argv) (assumption) *)
 Definition cmd_parse (opts : list opt) (ignore_unknown : bool) (a : argv) : parsed :=
   match a with
-  | None => mk_parsed RC_SUCCESS [] [] [] false false
-  | Some [] => mk_parsed RC_SUCCESS [] [] [] false false      (* 0 == argc *)
+  | None => mk_parsed RC_SUCCESS [] [] [] false
+  | Some [] => mk_parsed RC_SUCCESS [] [] [] false      (* 0 == argc *)
   | Some av => parse_loop (parse_fuel opts av) opts ignore_unknown av 1 []
   end.
 
